@@ -6,7 +6,7 @@ Copyright 2020--2023 Michael Hayes, UCECE
 
 from sympy import Add, Mul, DiracDelta, Heaviside, Integral, re, im
 from sympy import oo, sin, cos, sqrt, atan2, pi, Symbol, solve, Min, Max
-from sympy import cosh, sinh, tanh, exp
+from sympy import cosh, sinh, tanh, exp, binomial
 from .extrafunctions import UnitStep, UnitImpulse, rect, dtrect
 from .utils import factor_const
 
@@ -37,9 +37,26 @@ def simplify_dirac_delta_product_term(expr):
         if arg is None or not arg.has(Symbol):
             return expr
         results = solve(arg, dict=True)
-        # Note, the eval method is called for functions.
-        const = Mul(*parts).subs(results[0])
-        return const * dirac
+        order = dirac.args[1] if len(dirac.args) > 1 else 0
+        if order == 0 or len(results[0]) != 1:
+            # Note, the eval method is called for functions.
+            const = Mul(*parts).subs(results[0])
+            return const * dirac
+
+        # f(t) * delta^(n)(c * t + d) = sum_k (-1)^k * binomial(n, k) *
+        # f^(k)(a) / c^k * delta^(n - k)(c * t + d), where a = -d / c.
+        # Only the k = 0 term survives if f is constant.
+        var, a = list(results[0].items())[0]
+        scale = arg.diff(var)
+        if scale.has(var):
+            return expr
+        func = Mul(*parts)
+        result = 0
+        for k in range(order + 1):
+            coeff = func.diff(var, k).subs(var, a)
+            result += (-1)**k * binomial(order, k) * coeff / scale**k * \
+                DiracDelta(arg, order - k)
+        return result
 
     return expr.replace(query, value)
 
